@@ -6,7 +6,8 @@ import vlib, bb, scen
 PID = "C07"
 FX = bb.FIX
 CREDS = {"valid": (b"alice", b"secret"), "wrongpass": (b"alice", b"Secret"), "unknownuser": (b"bob", b"secret"), "emptyboth": (b"", b""),
-         "emptypass_user": (b"carol", b""), "long255": (b"a" * 255, b"b" * 255), "nonutf8": (b"al\xffce", b"secr\xfe")}
+         "emptypass_user": (b"carol", b""), "listed_emptypass": (b"alice", b""), "listed_prefixpass": (b"alice", b"secre"),
+         "listed_extendedpass": (b"alice", b"secretsecret"), "long255": (b"a" * 255, b"b" * 255), "nonutf8": (b"al\xffce", b"secr\xfe")}
 
 
 def socks5_offer(port, offer, cred, target, timeout=4.0, cmd="connect"):
